@@ -49,7 +49,9 @@ FLOAT_LEAVES = [0.0, -0.0, 1.5, -2.25, float("inf"), float("-inf"), float("nan")
 COMPLEX_LEAVES = [0j, complex(-0.0, 0.0), complex(1.5, -2.5), complex(float("inf"), float("nan")), complex(0.0, -0.0)]
 BYTES_LEAVES = [b"", b"\x00", b"\xff\xff\xff", bytes(range(256))]
 STR_LEAVES = ["", "a", "\x00", "é", "€", "\U0001f600", "a\nb", "L", "Q"]
-BAD_STR_LEAVES = ["\ud800", "a\udfffb"]
+# every class of lone surrogate (high: first/last; low: first, around the U+DC80..U+DCFF range that
+# error handlers such as surrogateescape give a meaning to, last), embedded and as a reversed pair
+BAD_STR_LEAVES = ["\ud800", "a\udfffb", "\udbff", "\udc00", "\udc7f", "\udc80", "x\udcffy", "\udd00", "\udc00\ud800", "\udc80" * 3]
 LEAVES = [None, True, False] + INT_LEAVES + FLOAT_LEAVES + COMPLEX_LEAVES + BYTES_LEAVES + STR_LEAVES
 REP_LEAVES = [None, True, 1, -(2**31) - 1, 2**31, -0.0, float("nan"), 1j, b"\x00", "€", "", 0]
 HASHABLE_REP = [None, True, 1, 2**31, -0.0, 1.5, b"\x00", "€", ""]
